@@ -272,7 +272,8 @@ class DataclassAdapter(GenericCallAdapter):
         kwargs = {}
 
         for field in fields(value):  # type: ignore
-            if field.repr:
+            # fields with init=False are no arguments of the constructor
+            if field.repr and field.init:
                 field_value = getattr(value, field.name)
                 is_default = False
 
@@ -316,7 +317,8 @@ else:
             kwargs = {}
 
             for field in attrs.fields(type(value)):
-                if field.repr:
+                # fields with init=False are no arguments of the constructor
+                if field.repr and field.init:
                     field_value = getattr(value, field.name)
                     is_default = False
 
@@ -336,14 +338,22 @@ else:
 
                             is_default = True
 
-                    kwargs[field.name] = Argument(
+                    kwargs[cls.argument_name(field)] = Argument(
                         value=field_value, is_default=is_default
                     )
 
             return ([], kwargs)
 
+        @staticmethod
+        def argument_name(field):
+            # private attributes (`_x`) are initialized with `x=...`
+            return getattr(field, "alias", None) or field.name.lstrip("_")
+
         def argument(self, value, pos_or_name):
             if isinstance(pos_or_name, str):
+                for field in attrs.fields(type(value)):
+                    if self.argument_name(field) == pos_or_name:
+                        return getattr(value, field.name)
                 return getattr(value, pos_or_name)
             else:
                 args = [field for field in attrs.fields(type(value)) if field.init]
